@@ -961,4 +961,6 @@ def run(run: Run):
     run.floor('C17.R5', 6)
     run.floor('C17.R6', 2)
     run.floor('C17.R7', 6)
+    from .common import shared_mechanisms as _shared
+    _shared(run, 'C17', 9, ['stored-values'])
     return INFO
